@@ -50,7 +50,7 @@ def sym_array(name, shape, dtype, backend="numpy", nm=None, scale=None):
 
 
 def mk_signal(interp, ctx, name, clsname, extra_rank=0, dtype=None, backend="numpy", has_t0=True,
-              align="center", pol="linear", has_meta=False, min_len=0, dims=None, nm=None):
+              align="center", pol="linear", has_meta=False, min_len=0, dims=None, nm=None, sr_unit="Hz"):
     """Build a symbolic, well-formed signal of class `clsname` by running the real constructor.
 
     Symbolic: length N >= min_len, every free sample dimension >= 1, sample_rate > 0,
@@ -76,7 +76,7 @@ def mk_signal(interp, ctx, name, clsname, extra_rank=0, dtype=None, backend="num
     data = sym_array(f"{name}_data", shape, dt, backend, nm)
     sr = nm.real(f"{name}_sr")
     ctx.assume(V.lt(0, sr), why="input-wf")
-    kw = {"sample_rate": Qty(sr, FREQ_DIM, interp.stubs.units["Hz"])}
+    kw = {"sample_rate": Qty(sr, FREQ_DIM, interp.stubs.units[sr_unit])}
     t0 = None
     if has_t0:
         t0 = STime(nm.real(f"{name}_t0"), "isot", 9)
